@@ -1,3 +1,4 @@
+import itertools
 import operator
 from datetime import datetime
 try:
@@ -252,7 +253,9 @@ def parse_filter(filter):
 
 ## --- Generate python to apply filter
 FILTER_CACHE_LRU_SIZE = 500
-_id_function = 0
+# Source of unique names for the generated functions.  next() on it is a
+# single atomic step, unlike reading and later incrementing a global integer.
+_id_function = itertools.count()
 
 
 class _NotFoundValue():
@@ -351,12 +354,10 @@ class _FnWrapper():
 
 @lru_cache(maxsize=FILTER_CACHE_LRU_SIZE)
 def _filter_function(filter):
-    global _id_function
     literals = []
     def_filter = _generate_filter_in_python(parse_filter(filter)._head, [], literals)
-    fun_name = "_gen_hsfilter_" + str(_id_function)
+    fun_name = "_gen_hsfilter_" + str(next(_id_function))
     function_template = "def %s(_grid, _entity, _literals=()):\n  return " % fun_name + "".join(def_filter)
-    _id_function += 1
     return _FnWrapper(fun_name, function_template, literals)
 
 
